@@ -15,9 +15,11 @@ def NoBackToTombstone (h : History) (T : Tid) : Prop :=
 /-! ### copyToPacktime on an already packed prefix -/
 
 theorem copyPreTxn_self {keep : Tid → Oid → Bool} {t : Txn} (hp : t.packed = true)
-    (hne : t.recs ≠ []) (hr : ∀ r ∈ t.recs, r.back = none ∧ keep t.tid r.oid = true) :
+    (hne : t.recs ≠ []) (hnd : OidNodup t.recs)
+    (hr : ∀ r ∈ t.recs, r.back = none ∧ keep t.tid r.oid = true) :
     copyPreTxn keep t = some t := by
   unfold copyPreTxn
+  rw [dedupLast_of_nodup hnd]
   have hf : t.recs.filter (fun r => keep t.tid r.oid) = t.recs :=
     List.filter_eq_self.2 (fun r h => (hr r h).2)
   have hm : t.recs.map packRec = t.recs := by
@@ -37,7 +39,8 @@ theorem copyPreTxn_self {keep : Tid → Oid → Bool} {t : Txn} (hp : t.packed =
   | mk tid packed mlen mdata recs => simp only at hp; subst hp; rfl
 
 theorem copyPre_self {keep : Tid → Oid → Bool} : ∀ {l : History},
-    (∀ t ∈ l, t.packed = true ∧ t.recs ≠ [] ∧ ∀ r ∈ t.recs, r.back = none ∧ keep t.tid r.oid = true) →
+    (∀ t ∈ l, t.packed = true ∧ t.recs ≠ [] ∧ OidNodup t.recs ∧
+      ∀ r ∈ t.recs, r.back = none ∧ keep t.tid r.oid = true) →
     copyPre keep l = l := by
   intro l
   induction l with
@@ -46,38 +49,30 @@ theorem copyPre_self {keep : Tid → Oid → Bool} : ∀ {l : History},
     intro h
     have ht := h t (List.mem_cons_self ..)
     unfold copyPre at ih ⊢
-    rw [List.filterMap_cons, copyPreTxn_self ht.1 ht.2.1 ht.2.2]
+    rw [List.filterMap_cons, copyPreTxn_self ht.1 ht.2.1 ht.2.2.1 ht.2.2.2]
     simp only
     rw [ih (fun t' ht' => h t' (List.mem_cons_of_mem _ ht'))]
 
 /-- shape of the transactions produced by copyToPacktime -/
 theorem copyPre_shape {keep : Tid → Oid → Bool} {pre : History} {t' : Txn}
-    (h : t' ∈ copyPre keep pre) : t'.packed = true ∧ t'.recs ≠ [] ∧ (∀ r ∈ t'.recs, r.back = none) ∧
+    (h : t' ∈ copyPre keep pre) : t'.packed = true ∧ t'.recs ≠ [] ∧ OidNodup t'.recs ∧
+      (∀ r ∈ t'.recs, r.back = none) ∧
       ∃ t ∈ pre, t'.tid = t.tid ∧
         ∀ r' ∈ t'.recs, ∃ r ∈ t.recs, r' = packRec r ∧ keep t.tid r.oid = true := by
-  unfold copyPre at h
-  rw [List.mem_filterMap] at h
-  obtain ⟨t, ht, he⟩ := h
-  unfold copyPreTxn at he
-  simp only at he
-  split at he
-  · simp at he
-  · rename_i hne
-    simp only [Option.some.injEq] at he
-    subst he
-    refine ⟨rfl, ?_, ?_, t, ht, rfl, ?_⟩
-    · simp only
-      intro hc
-      apply hne
-      have : t.recs.filter (fun r => keep t.tid r.oid) = [] := by simpa using hc
-      simp [this]
-    · intro r hr
-      obtain ⟨r0, _, e⟩ := List.mem_map.1 hr
-      rw [← e]; rfl
-    · intro r' hr'
-      obtain ⟨r0, h0, e⟩ := List.mem_map.1 hr'
-      obtain ⟨h1, h2⟩ := List.mem_filter.1 h0
-      exact ⟨r0, h1, e.symm, h2⟩
+  obtain ⟨t, ht, hct⟩ := copyPre_mem h
+  obtain ⟨e1, e2, _, _, e3, e4⟩ := copyPreTxn_some hct
+  refine ⟨e2, ?_, ?_, ?_, t, ht, e1, ?_⟩
+  · rw [e3]; intro hc; apply e4; simpa using hc
+  · rw [e3]; exact copyPre_recs_nodup
+  · intro r hr
+    rw [e3] at hr
+    obtain ⟨r0, _, e⟩ := List.mem_map.1 hr
+    rw [← e]; rfl
+  · intro r' hr'
+    rw [e3] at hr'
+    obtain ⟨r0, h0, e⟩ := List.mem_map.1 hr'
+    obtain ⟨h1, h2⟩ := List.mem_filter.1 h0
+    exact ⟨r0, dedupLast_sub h1, e.symm, h2⟩
 
 /-! ### the split of a packed history at an earlier or equal time -/
 
@@ -229,8 +224,8 @@ theorem packFS_repack_nogc {h h' : History} {T T' : Tid} (hs : Sorted h)
     intro g2 hg2
     apply copyPre_self
     intro t' ht'
-    obtain ⟨hpk, hne, hbk, t, ht, etid, hrecs⟩ := copyPre_shape ht'
-    refine ⟨hpk, hne, ?_⟩
+    obtain ⟨hpk, hne, hnd, hbk, t, ht, etid, hrecs⟩ := copyPre_shape ht'
+    refine ⟨hpk, hne, hnd, ?_⟩
     intro r' hr'
     refine ⟨hbk r' hr', ?_⟩
     obtain ⟨r, hr, er, hk⟩ := hrecs r' hr'
